@@ -15,7 +15,8 @@ struct Access { bool write; uint32_t addr; size_t n; };
 struct Medium {
     uint8_t mem[MSIZE];
     std::vector<Access> log;
-    uint32_t lo = 0, hi = MSIZE;       // the instance's region; accesses outside are recorded as faults
+    uint32_t lo = 0, hi = MSIZE;       // the instance's region (as indices into mem); accesses outside are recorded as faults
+    uint32_t origin = 0;               // the address the medium's first octet has for the library (addresses are translated by the callbacks)
     bool outside = false;
     size_t calls = 0;                  // calls with n > 0
     // single fault
@@ -56,6 +57,7 @@ inline size_t faulty(size_t n, bool &hit) {
 }
 inline size_t med_read(void *dst, uint32_t addr, size_t n) {
     Medium &m = M();
+    addr -= m.origin;
     vp::tick();
     if (!m.in_nested) m.log.push_back({false, addr, n});
     if (!m.in_nested && ((uint64_t)addr + n > MSIZE || addr < m.lo || (uint64_t)addr + n > m.hi)) { m.outside = true; if ((uint64_t)addr + n > MSIZE) return 0; }
@@ -65,6 +67,7 @@ inline size_t med_read(void *dst, uint32_t addr, size_t n) {
 }
 inline size_t med_write(uint32_t addr, const void *src, size_t n) {
     Medium &m = M();
+    addr -= m.origin;
     vp::tick();
     m.log.push_back({true, addr, n});
     if ((uint64_t)addr + n > MSIZE || addr < m.lo || (uint64_t)addr + n > m.hi) { m.outside = true; if ((uint64_t)addr + n > MSIZE) return 0; }
@@ -91,13 +94,15 @@ struct Config {
     size_t size; uint32_t place; int cs;        // cs 0 default (trivial 16 bit) 1 crc16 (init 0xffff) 2 sum32 (init 0x12345678)
     long aux;                                   // -1: none; otherwise the aux buffer size (0 allowed)
     int order;                                  // 0: place, then sum  1: sum, then place  2: first configured with the checksum of the other width (other algorithm, all-ones initial value), then placed, then re-configured
+    int top = 0;                                // 1: the medium is mapped so that the instance's last octet has the address 0xffffffff (place etc. stay indices into the medium)
     size_t cssize() const { return cs == 2 ? 4 : 2; }
     uint32_t data_addr() const { return place + (uint32_t)cssize(); }
 };
-inline std::string ser(const Config &c) { return vp::fmt("cfg %zu %u %d %ld %d", c.size, c.place, c.cs, c.aux, c.order); }
+inline std::string ser(const Config &c) { return vp::fmt("cfg %zu %u %d %ld %d", c.size, c.place, c.cs, c.aux, c.order + 10 * c.top); }
+inline uint32_t origin_of(const Config &c) { return c.top ? (uint32_t)(0u - (c.place + (uint32_t)c.cssize() + (uint32_t)c.size)) : 0u; }
 inline bool parse_cfg(const std::vector<std::string> &w, Config &c) {
     if (w.size() < 6 || w[0] != "cfg") return false;
-    c.size = strtoull(w[1].c_str(), 0, 10); c.place = (uint32_t)strtoul(w[2].c_str(), 0, 10); c.cs = atoi(w[3].c_str()); c.aux = atol(w[4].c_str()); c.order = atoi(w[5].c_str());
+    c.size = strtoull(w[1].c_str(), 0, 10); c.place = (uint32_t)strtoul(w[2].c_str(), 0, 10); c.cs = atoi(w[3].c_str()); c.aux = atol(w[4].c_str()); c.order = atoi(w[5].c_str()); c.top = c.order / 10; c.order %= 10;
     return c.size >= 1 && (uint64_t)c.place + 4 + c.size <= MSIZE && c.cs >= 0 && c.cs <= 2;
 }
 
@@ -108,10 +113,12 @@ struct Instance {
     explicit Instance(const Config &c) {
         memset(&st, 0, sizeof st);
         persistent_init(&st, c.size, med_read, med_write);
+        M().origin = origin_of(c);
+        const uint32_t place = M().origin + c.place;
         auto sum = [&]() { if (c.cs == 1) persistent_sum16(&st, sum_crc16, 0xffff); else if (c.cs == 2) persistent_sum32(&st, sum_32, 0x12345678u); };
         if (c.order == 2 && c.cs == 1) persistent_sum32(&st, sum_32, 0xffffffffu);
         if (c.order == 2 && c.cs == 2) persistent_sum16(&st, sum_crc16, 0xffff);
-        if (c.order == 0 || c.order == 2) { persistent_place(&st, c.place); sum(); } else { sum(); persistent_place(&st, c.place); }
+        if (c.order == 0 || c.order == 2) { persistent_place(&st, place); sum(); } else { sum(); persistent_place(&st, place); }
         if (c.aux >= 0) { aux = (uint8_t *)malloc(c.aux ? (size_t)c.aux : 1); persistent_buffer(&st, aux, (size_t)c.aux); }
         M().lo = c.place; M().hi = c.place + (uint32_t)c.cssize() + (uint32_t)c.size;
     }
